@@ -124,219 +124,219 @@ fn sig_is_code(s: &Signature, code: u8) -> bool {
     }
 }
 
-// @unit C08.single.u8 props=C08 kind=complete fn=<zvariant::Value.as.PartialEq>::eq,<zvariant::Value.as.Ord>::cmp,zvariant::Value::try_clone,zvariant::Value::try_to_owned,zvariant::Value::value_signature,<u8.as.TryFrom<&Value>>::try_from timeout=600
+// @unit C08.single.u8 props=C08 kind=complete fn=<zvariant::Value.as.PartialEq>::eq,<zvariant::Value.as.Ord>::cmp,zvariant::Value::try_clone,zvariant::Value::try_to_owned,zvariant::Value::value_signature,<u8.as.TryFrom<&Value>>::try_from timeout=1200
 #[cfg(not(verif_skip_c08_single_u8__complete))]
 single_unit!(c08_single_u8__complete, U8, u8, b'y',
     "C08.single.u8.eq_reflexive", "C08.single.u8.clone_preserves_eq_hash_signature", "C08.single.u8.to_owned_preserves_eq_signature", "C08.single.u8.signature_is_type_code", "C08.single.u8.conversion_round_trip", "C08.single.u8.cmp_reflexive", "C08.single.u8.eq_reflexive_for_nan");
-// @unit C08.single.bool props=C08 kind=complete fn=<zvariant::Value.as.PartialEq>::eq,<zvariant::Value.as.Ord>::cmp,zvariant::Value::try_clone,zvariant::Value::try_to_owned,zvariant::Value::value_signature,<bool.as.TryFrom<&Value>>::try_from timeout=600
+// @unit C08.single.bool props=C08 kind=complete fn=<zvariant::Value.as.PartialEq>::eq,<zvariant::Value.as.Ord>::cmp,zvariant::Value::try_clone,zvariant::Value::try_to_owned,zvariant::Value::value_signature,<bool.as.TryFrom<&Value>>::try_from timeout=1200
 #[cfg(not(verif_skip_c08_single_bool__complete))]
 single_unit!(c08_single_bool__complete, Bool, bool, b'b',
     "C08.single.bool.eq_reflexive", "C08.single.bool.clone_preserves_eq_hash_signature", "C08.single.bool.to_owned_preserves_eq_signature", "C08.single.bool.signature_is_type_code", "C08.single.bool.conversion_round_trip", "C08.single.bool.cmp_reflexive", "C08.single.bool.eq_reflexive_for_nan");
-// @unit C08.single.i16 props=C08 kind=complete fn=<zvariant::Value.as.PartialEq>::eq,<zvariant::Value.as.Ord>::cmp,zvariant::Value::try_clone,zvariant::Value::try_to_owned,zvariant::Value::value_signature,<i16.as.TryFrom<&Value>>::try_from timeout=600
+// @unit C08.single.i16 props=C08 kind=complete fn=<zvariant::Value.as.PartialEq>::eq,<zvariant::Value.as.Ord>::cmp,zvariant::Value::try_clone,zvariant::Value::try_to_owned,zvariant::Value::value_signature,<i16.as.TryFrom<&Value>>::try_from timeout=1200
 #[cfg(not(verif_skip_c08_single_i16__complete))]
 single_unit!(c08_single_i16__complete, I16, i16, b'n',
     "C08.single.i16.eq_reflexive", "C08.single.i16.clone_preserves_eq_hash_signature", "C08.single.i16.to_owned_preserves_eq_signature", "C08.single.i16.signature_is_type_code", "C08.single.i16.conversion_round_trip", "C08.single.i16.cmp_reflexive", "C08.single.i16.eq_reflexive_for_nan");
-// @unit C08.single.u16 props=C08 kind=complete fn=<zvariant::Value.as.PartialEq>::eq,<zvariant::Value.as.Ord>::cmp,zvariant::Value::try_clone,zvariant::Value::try_to_owned,zvariant::Value::value_signature,<u16.as.TryFrom<&Value>>::try_from timeout=600
+// @unit C08.single.u16 props=C08 kind=complete fn=<zvariant::Value.as.PartialEq>::eq,<zvariant::Value.as.Ord>::cmp,zvariant::Value::try_clone,zvariant::Value::try_to_owned,zvariant::Value::value_signature,<u16.as.TryFrom<&Value>>::try_from timeout=1200
 #[cfg(not(verif_skip_c08_single_u16__complete))]
 single_unit!(c08_single_u16__complete, U16, u16, b'q',
     "C08.single.u16.eq_reflexive", "C08.single.u16.clone_preserves_eq_hash_signature", "C08.single.u16.to_owned_preserves_eq_signature", "C08.single.u16.signature_is_type_code", "C08.single.u16.conversion_round_trip", "C08.single.u16.cmp_reflexive", "C08.single.u16.eq_reflexive_for_nan");
-// @unit C08.single.i32 props=C08 kind=complete fn=<zvariant::Value.as.PartialEq>::eq,<zvariant::Value.as.Ord>::cmp,zvariant::Value::try_clone,zvariant::Value::try_to_owned,zvariant::Value::value_signature,<i32.as.TryFrom<&Value>>::try_from timeout=600
+// @unit C08.single.i32 props=C08 kind=complete fn=<zvariant::Value.as.PartialEq>::eq,<zvariant::Value.as.Ord>::cmp,zvariant::Value::try_clone,zvariant::Value::try_to_owned,zvariant::Value::value_signature,<i32.as.TryFrom<&Value>>::try_from timeout=1200
 #[cfg(not(verif_skip_c08_single_i32__complete))]
 single_unit!(c08_single_i32__complete, I32, i32, b'i',
     "C08.single.i32.eq_reflexive", "C08.single.i32.clone_preserves_eq_hash_signature", "C08.single.i32.to_owned_preserves_eq_signature", "C08.single.i32.signature_is_type_code", "C08.single.i32.conversion_round_trip", "C08.single.i32.cmp_reflexive", "C08.single.i32.eq_reflexive_for_nan");
-// @unit C08.single.u32 props=C08 kind=complete fn=<zvariant::Value.as.PartialEq>::eq,<zvariant::Value.as.Ord>::cmp,zvariant::Value::try_clone,zvariant::Value::try_to_owned,zvariant::Value::value_signature,<u32.as.TryFrom<&Value>>::try_from timeout=600
+// @unit C08.single.u32 props=C08 kind=complete fn=<zvariant::Value.as.PartialEq>::eq,<zvariant::Value.as.Ord>::cmp,zvariant::Value::try_clone,zvariant::Value::try_to_owned,zvariant::Value::value_signature,<u32.as.TryFrom<&Value>>::try_from timeout=1200
 #[cfg(not(verif_skip_c08_single_u32__complete))]
 single_unit!(c08_single_u32__complete, U32, u32, b'u',
     "C08.single.u32.eq_reflexive", "C08.single.u32.clone_preserves_eq_hash_signature", "C08.single.u32.to_owned_preserves_eq_signature", "C08.single.u32.signature_is_type_code", "C08.single.u32.conversion_round_trip", "C08.single.u32.cmp_reflexive", "C08.single.u32.eq_reflexive_for_nan");
-// @unit C08.single.i64 props=C08 kind=complete fn=<zvariant::Value.as.PartialEq>::eq,<zvariant::Value.as.Ord>::cmp,zvariant::Value::try_clone,zvariant::Value::try_to_owned,zvariant::Value::value_signature,<i64.as.TryFrom<&Value>>::try_from timeout=600
+// @unit C08.single.i64 props=C08 kind=complete fn=<zvariant::Value.as.PartialEq>::eq,<zvariant::Value.as.Ord>::cmp,zvariant::Value::try_clone,zvariant::Value::try_to_owned,zvariant::Value::value_signature,<i64.as.TryFrom<&Value>>::try_from timeout=1200
 #[cfg(not(verif_skip_c08_single_i64__complete))]
 single_unit!(c08_single_i64__complete, I64, i64, b'x',
     "C08.single.i64.eq_reflexive", "C08.single.i64.clone_preserves_eq_hash_signature", "C08.single.i64.to_owned_preserves_eq_signature", "C08.single.i64.signature_is_type_code", "C08.single.i64.conversion_round_trip", "C08.single.i64.cmp_reflexive", "C08.single.i64.eq_reflexive_for_nan");
-// @unit C08.single.u64 props=C08 kind=complete fn=<zvariant::Value.as.PartialEq>::eq,<zvariant::Value.as.Ord>::cmp,zvariant::Value::try_clone,zvariant::Value::try_to_owned,zvariant::Value::value_signature,<u64.as.TryFrom<&Value>>::try_from timeout=600
+// @unit C08.single.u64 props=C08 kind=complete fn=<zvariant::Value.as.PartialEq>::eq,<zvariant::Value.as.Ord>::cmp,zvariant::Value::try_clone,zvariant::Value::try_to_owned,zvariant::Value::value_signature,<u64.as.TryFrom<&Value>>::try_from timeout=1200
 #[cfg(not(verif_skip_c08_single_u64__complete))]
 single_unit!(c08_single_u64__complete, U64, u64, b't',
     "C08.single.u64.eq_reflexive", "C08.single.u64.clone_preserves_eq_hash_signature", "C08.single.u64.to_owned_preserves_eq_signature", "C08.single.u64.signature_is_type_code", "C08.single.u64.conversion_round_trip", "C08.single.u64.cmp_reflexive", "C08.single.u64.eq_reflexive_for_nan");
-// @unit C08.single.f64 props=C08 kind=complete fn=<zvariant::Value.as.PartialEq>::eq,<zvariant::Value.as.Ord>::cmp,zvariant::Value::try_clone,zvariant::Value::try_to_owned,zvariant::Value::value_signature,<f64.as.TryFrom<&Value>>::try_from timeout=600
+// @unit C08.single.f64 props=C08 kind=complete fn=<zvariant::Value.as.PartialEq>::eq,<zvariant::Value.as.Ord>::cmp,zvariant::Value::try_clone,zvariant::Value::try_to_owned,zvariant::Value::value_signature,<f64.as.TryFrom<&Value>>::try_from timeout=1200
 #[cfg(not(verif_skip_c08_single_f64__complete))]
 single_unit!(c08_single_f64__complete, F64, f64, b'd',
     "C08.single.f64.eq_reflexive", "C08.single.f64.clone_preserves_eq_hash_signature", "C08.single.f64.to_owned_preserves_eq_signature", "C08.single.f64.signature_is_type_code", "C08.single.f64.conversion_round_trip", "C08.single.f64.cmp_reflexive", "C08.single.f64.eq_reflexive_for_nan");
-// @unit C08.pair.u8_u8 props=C08 kind=complete fn=<zvariant::Value.as.PartialEq>::eq,<zvariant::Value.as.Ord>::cmp,<zvariant::Value.as.Hash>::hash timeout=900
+// @unit C08.pair.u8_u8 props=C08 kind=complete fn=<zvariant::Value.as.PartialEq>::eq,<zvariant::Value.as.Ord>::cmp,<zvariant::Value.as.Hash>::hash timeout=1800
 #[cfg(not(verif_skip_c08_pair_u8_x_u8__complete))]
 pair_unit!(c08_pair_u8_x_u8__complete, U8, u8, U8, u8,
     "C08.pair.u8_u8.eq_symmetric", "C08.pair.u8_u8.cmp_antisymmetric", "C08.pair.u8_u8.cmp_equal_iff_eq", "C08.pair.u8_u8.eq_implies_same_hash", "C08.pair.u8_u8.partial_cmp_agrees_with_cmp", "C08.pair.u8_u8.cmp_equal_iff_eq_with_nan");
-// @unit C08.pair.u8_bool props=C08 kind=complete fn=<zvariant::Value.as.PartialEq>::eq,<zvariant::Value.as.Ord>::cmp,<zvariant::Value.as.Hash>::hash timeout=900
+// @unit C08.pair.u8_bool props=C08 kind=complete fn=<zvariant::Value.as.PartialEq>::eq,<zvariant::Value.as.Ord>::cmp,<zvariant::Value.as.Hash>::hash timeout=1800
 #[cfg(not(verif_skip_c08_pair_u8_x_bool__complete))]
 pair_unit!(c08_pair_u8_x_bool__complete, U8, u8, Bool, bool,
     "C08.pair.u8_bool.eq_symmetric", "C08.pair.u8_bool.cmp_antisymmetric", "C08.pair.u8_bool.cmp_equal_iff_eq", "C08.pair.u8_bool.eq_implies_same_hash", "C08.pair.u8_bool.partial_cmp_agrees_with_cmp", "C08.pair.u8_bool.cmp_equal_iff_eq_with_nan");
-// @unit C08.pair.u8_i16 props=C08 kind=complete tier=thorough fn=<zvariant::Value.as.PartialEq>::eq,<zvariant::Value.as.Ord>::cmp,<zvariant::Value.as.Hash>::hash timeout=900
+// @unit C08.pair.u8_i16 props=C08 kind=complete tier=thorough fn=<zvariant::Value.as.PartialEq>::eq,<zvariant::Value.as.Ord>::cmp,<zvariant::Value.as.Hash>::hash timeout=1800
 #[cfg(not(verif_skip_c08_pair_u8_x_i16__complete))]
 pair_unit!(c08_pair_u8_x_i16__complete, U8, u8, I16, i16,
     "C08.pair.u8_i16.eq_symmetric", "C08.pair.u8_i16.cmp_antisymmetric", "C08.pair.u8_i16.cmp_equal_iff_eq", "C08.pair.u8_i16.eq_implies_same_hash", "C08.pair.u8_i16.partial_cmp_agrees_with_cmp", "C08.pair.u8_i16.cmp_equal_iff_eq_with_nan");
-// @unit C08.pair.u8_u16 props=C08 kind=complete tier=thorough fn=<zvariant::Value.as.PartialEq>::eq,<zvariant::Value.as.Ord>::cmp,<zvariant::Value.as.Hash>::hash timeout=900
+// @unit C08.pair.u8_u16 props=C08 kind=complete tier=thorough fn=<zvariant::Value.as.PartialEq>::eq,<zvariant::Value.as.Ord>::cmp,<zvariant::Value.as.Hash>::hash timeout=1800
 #[cfg(not(verif_skip_c08_pair_u8_x_u16__complete))]
 pair_unit!(c08_pair_u8_x_u16__complete, U8, u8, U16, u16,
     "C08.pair.u8_u16.eq_symmetric", "C08.pair.u8_u16.cmp_antisymmetric", "C08.pair.u8_u16.cmp_equal_iff_eq", "C08.pair.u8_u16.eq_implies_same_hash", "C08.pair.u8_u16.partial_cmp_agrees_with_cmp", "C08.pair.u8_u16.cmp_equal_iff_eq_with_nan");
-// @unit C08.pair.u8_i32 props=C08 kind=complete tier=thorough fn=<zvariant::Value.as.PartialEq>::eq,<zvariant::Value.as.Ord>::cmp,<zvariant::Value.as.Hash>::hash timeout=900
+// @unit C08.pair.u8_i32 props=C08 kind=complete tier=thorough fn=<zvariant::Value.as.PartialEq>::eq,<zvariant::Value.as.Ord>::cmp,<zvariant::Value.as.Hash>::hash timeout=1800
 #[cfg(not(verif_skip_c08_pair_u8_x_i32__complete))]
 pair_unit!(c08_pair_u8_x_i32__complete, U8, u8, I32, i32,
     "C08.pair.u8_i32.eq_symmetric", "C08.pair.u8_i32.cmp_antisymmetric", "C08.pair.u8_i32.cmp_equal_iff_eq", "C08.pair.u8_i32.eq_implies_same_hash", "C08.pair.u8_i32.partial_cmp_agrees_with_cmp", "C08.pair.u8_i32.cmp_equal_iff_eq_with_nan");
-// @unit C08.pair.u8_u32 props=C08 kind=complete tier=thorough fn=<zvariant::Value.as.PartialEq>::eq,<zvariant::Value.as.Ord>::cmp,<zvariant::Value.as.Hash>::hash timeout=900
+// @unit C08.pair.u8_u32 props=C08 kind=complete tier=thorough fn=<zvariant::Value.as.PartialEq>::eq,<zvariant::Value.as.Ord>::cmp,<zvariant::Value.as.Hash>::hash timeout=1800
 #[cfg(not(verif_skip_c08_pair_u8_x_u32__complete))]
 pair_unit!(c08_pair_u8_x_u32__complete, U8, u8, U32, u32,
     "C08.pair.u8_u32.eq_symmetric", "C08.pair.u8_u32.cmp_antisymmetric", "C08.pair.u8_u32.cmp_equal_iff_eq", "C08.pair.u8_u32.eq_implies_same_hash", "C08.pair.u8_u32.partial_cmp_agrees_with_cmp", "C08.pair.u8_u32.cmp_equal_iff_eq_with_nan");
-// @unit C08.pair.u8_i64 props=C08 kind=complete tier=thorough fn=<zvariant::Value.as.PartialEq>::eq,<zvariant::Value.as.Ord>::cmp,<zvariant::Value.as.Hash>::hash timeout=900
+// @unit C08.pair.u8_i64 props=C08 kind=complete tier=thorough fn=<zvariant::Value.as.PartialEq>::eq,<zvariant::Value.as.Ord>::cmp,<zvariant::Value.as.Hash>::hash timeout=1800
 #[cfg(not(verif_skip_c08_pair_u8_x_i64__complete))]
 pair_unit!(c08_pair_u8_x_i64__complete, U8, u8, I64, i64,
     "C08.pair.u8_i64.eq_symmetric", "C08.pair.u8_i64.cmp_antisymmetric", "C08.pair.u8_i64.cmp_equal_iff_eq", "C08.pair.u8_i64.eq_implies_same_hash", "C08.pair.u8_i64.partial_cmp_agrees_with_cmp", "C08.pair.u8_i64.cmp_equal_iff_eq_with_nan");
-// @unit C08.pair.u8_u64 props=C08 kind=complete tier=thorough fn=<zvariant::Value.as.PartialEq>::eq,<zvariant::Value.as.Ord>::cmp,<zvariant::Value.as.Hash>::hash timeout=900
+// @unit C08.pair.u8_u64 props=C08 kind=complete tier=thorough fn=<zvariant::Value.as.PartialEq>::eq,<zvariant::Value.as.Ord>::cmp,<zvariant::Value.as.Hash>::hash timeout=1800
 #[cfg(not(verif_skip_c08_pair_u8_x_u64__complete))]
 pair_unit!(c08_pair_u8_x_u64__complete, U8, u8, U64, u64,
     "C08.pair.u8_u64.eq_symmetric", "C08.pair.u8_u64.cmp_antisymmetric", "C08.pair.u8_u64.cmp_equal_iff_eq", "C08.pair.u8_u64.eq_implies_same_hash", "C08.pair.u8_u64.partial_cmp_agrees_with_cmp", "C08.pair.u8_u64.cmp_equal_iff_eq_with_nan");
-// @unit C08.pair.u8_f64 props=C08 kind=complete fn=<zvariant::Value.as.PartialEq>::eq,<zvariant::Value.as.Ord>::cmp,<zvariant::Value.as.Hash>::hash timeout=900
+// @unit C08.pair.u8_f64 props=C08 kind=complete fn=<zvariant::Value.as.PartialEq>::eq,<zvariant::Value.as.Ord>::cmp,<zvariant::Value.as.Hash>::hash timeout=1800
 #[cfg(not(verif_skip_c08_pair_u8_x_f64__complete))]
 pair_unit!(c08_pair_u8_x_f64__complete, U8, u8, F64, f64,
     "C08.pair.u8_f64.eq_symmetric", "C08.pair.u8_f64.cmp_antisymmetric", "C08.pair.u8_f64.cmp_equal_iff_eq", "C08.pair.u8_f64.eq_implies_same_hash", "C08.pair.u8_f64.partial_cmp_agrees_with_cmp", "C08.pair.u8_f64.cmp_equal_iff_eq_with_nan");
-// @unit C08.pair.bool_bool props=C08 kind=complete fn=<zvariant::Value.as.PartialEq>::eq,<zvariant::Value.as.Ord>::cmp,<zvariant::Value.as.Hash>::hash timeout=900
+// @unit C08.pair.bool_bool props=C08 kind=complete fn=<zvariant::Value.as.PartialEq>::eq,<zvariant::Value.as.Ord>::cmp,<zvariant::Value.as.Hash>::hash timeout=1800
 #[cfg(not(verif_skip_c08_pair_bool_x_bool__complete))]
 pair_unit!(c08_pair_bool_x_bool__complete, Bool, bool, Bool, bool,
     "C08.pair.bool_bool.eq_symmetric", "C08.pair.bool_bool.cmp_antisymmetric", "C08.pair.bool_bool.cmp_equal_iff_eq", "C08.pair.bool_bool.eq_implies_same_hash", "C08.pair.bool_bool.partial_cmp_agrees_with_cmp", "C08.pair.bool_bool.cmp_equal_iff_eq_with_nan");
-// @unit C08.pair.bool_i16 props=C08 kind=complete tier=thorough fn=<zvariant::Value.as.PartialEq>::eq,<zvariant::Value.as.Ord>::cmp,<zvariant::Value.as.Hash>::hash timeout=900
+// @unit C08.pair.bool_i16 props=C08 kind=complete tier=thorough fn=<zvariant::Value.as.PartialEq>::eq,<zvariant::Value.as.Ord>::cmp,<zvariant::Value.as.Hash>::hash timeout=1800
 #[cfg(not(verif_skip_c08_pair_bool_x_i16__complete))]
 pair_unit!(c08_pair_bool_x_i16__complete, Bool, bool, I16, i16,
     "C08.pair.bool_i16.eq_symmetric", "C08.pair.bool_i16.cmp_antisymmetric", "C08.pair.bool_i16.cmp_equal_iff_eq", "C08.pair.bool_i16.eq_implies_same_hash", "C08.pair.bool_i16.partial_cmp_agrees_with_cmp", "C08.pair.bool_i16.cmp_equal_iff_eq_with_nan");
-// @unit C08.pair.bool_u16 props=C08 kind=complete tier=thorough fn=<zvariant::Value.as.PartialEq>::eq,<zvariant::Value.as.Ord>::cmp,<zvariant::Value.as.Hash>::hash timeout=900
+// @unit C08.pair.bool_u16 props=C08 kind=complete tier=thorough fn=<zvariant::Value.as.PartialEq>::eq,<zvariant::Value.as.Ord>::cmp,<zvariant::Value.as.Hash>::hash timeout=1800
 #[cfg(not(verif_skip_c08_pair_bool_x_u16__complete))]
 pair_unit!(c08_pair_bool_x_u16__complete, Bool, bool, U16, u16,
     "C08.pair.bool_u16.eq_symmetric", "C08.pair.bool_u16.cmp_antisymmetric", "C08.pair.bool_u16.cmp_equal_iff_eq", "C08.pair.bool_u16.eq_implies_same_hash", "C08.pair.bool_u16.partial_cmp_agrees_with_cmp", "C08.pair.bool_u16.cmp_equal_iff_eq_with_nan");
-// @unit C08.pair.bool_i32 props=C08 kind=complete tier=thorough fn=<zvariant::Value.as.PartialEq>::eq,<zvariant::Value.as.Ord>::cmp,<zvariant::Value.as.Hash>::hash timeout=900
+// @unit C08.pair.bool_i32 props=C08 kind=complete tier=thorough fn=<zvariant::Value.as.PartialEq>::eq,<zvariant::Value.as.Ord>::cmp,<zvariant::Value.as.Hash>::hash timeout=1800
 #[cfg(not(verif_skip_c08_pair_bool_x_i32__complete))]
 pair_unit!(c08_pair_bool_x_i32__complete, Bool, bool, I32, i32,
     "C08.pair.bool_i32.eq_symmetric", "C08.pair.bool_i32.cmp_antisymmetric", "C08.pair.bool_i32.cmp_equal_iff_eq", "C08.pair.bool_i32.eq_implies_same_hash", "C08.pair.bool_i32.partial_cmp_agrees_with_cmp", "C08.pair.bool_i32.cmp_equal_iff_eq_with_nan");
-// @unit C08.pair.bool_u32 props=C08 kind=complete tier=thorough fn=<zvariant::Value.as.PartialEq>::eq,<zvariant::Value.as.Ord>::cmp,<zvariant::Value.as.Hash>::hash timeout=900
+// @unit C08.pair.bool_u32 props=C08 kind=complete tier=thorough fn=<zvariant::Value.as.PartialEq>::eq,<zvariant::Value.as.Ord>::cmp,<zvariant::Value.as.Hash>::hash timeout=1800
 #[cfg(not(verif_skip_c08_pair_bool_x_u32__complete))]
 pair_unit!(c08_pair_bool_x_u32__complete, Bool, bool, U32, u32,
     "C08.pair.bool_u32.eq_symmetric", "C08.pair.bool_u32.cmp_antisymmetric", "C08.pair.bool_u32.cmp_equal_iff_eq", "C08.pair.bool_u32.eq_implies_same_hash", "C08.pair.bool_u32.partial_cmp_agrees_with_cmp", "C08.pair.bool_u32.cmp_equal_iff_eq_with_nan");
-// @unit C08.pair.bool_i64 props=C08 kind=complete tier=thorough fn=<zvariant::Value.as.PartialEq>::eq,<zvariant::Value.as.Ord>::cmp,<zvariant::Value.as.Hash>::hash timeout=900
+// @unit C08.pair.bool_i64 props=C08 kind=complete tier=thorough fn=<zvariant::Value.as.PartialEq>::eq,<zvariant::Value.as.Ord>::cmp,<zvariant::Value.as.Hash>::hash timeout=1800
 #[cfg(not(verif_skip_c08_pair_bool_x_i64__complete))]
 pair_unit!(c08_pair_bool_x_i64__complete, Bool, bool, I64, i64,
     "C08.pair.bool_i64.eq_symmetric", "C08.pair.bool_i64.cmp_antisymmetric", "C08.pair.bool_i64.cmp_equal_iff_eq", "C08.pair.bool_i64.eq_implies_same_hash", "C08.pair.bool_i64.partial_cmp_agrees_with_cmp", "C08.pair.bool_i64.cmp_equal_iff_eq_with_nan");
-// @unit C08.pair.bool_u64 props=C08 kind=complete tier=thorough fn=<zvariant::Value.as.PartialEq>::eq,<zvariant::Value.as.Ord>::cmp,<zvariant::Value.as.Hash>::hash timeout=900
+// @unit C08.pair.bool_u64 props=C08 kind=complete tier=thorough fn=<zvariant::Value.as.PartialEq>::eq,<zvariant::Value.as.Ord>::cmp,<zvariant::Value.as.Hash>::hash timeout=1800
 #[cfg(not(verif_skip_c08_pair_bool_x_u64__complete))]
 pair_unit!(c08_pair_bool_x_u64__complete, Bool, bool, U64, u64,
     "C08.pair.bool_u64.eq_symmetric", "C08.pair.bool_u64.cmp_antisymmetric", "C08.pair.bool_u64.cmp_equal_iff_eq", "C08.pair.bool_u64.eq_implies_same_hash", "C08.pair.bool_u64.partial_cmp_agrees_with_cmp", "C08.pair.bool_u64.cmp_equal_iff_eq_with_nan");
-// @unit C08.pair.bool_f64 props=C08 kind=complete tier=thorough fn=<zvariant::Value.as.PartialEq>::eq,<zvariant::Value.as.Ord>::cmp,<zvariant::Value.as.Hash>::hash timeout=900
+// @unit C08.pair.bool_f64 props=C08 kind=complete tier=thorough fn=<zvariant::Value.as.PartialEq>::eq,<zvariant::Value.as.Ord>::cmp,<zvariant::Value.as.Hash>::hash timeout=1800
 #[cfg(not(verif_skip_c08_pair_bool_x_f64__complete))]
 pair_unit!(c08_pair_bool_x_f64__complete, Bool, bool, F64, f64,
     "C08.pair.bool_f64.eq_symmetric", "C08.pair.bool_f64.cmp_antisymmetric", "C08.pair.bool_f64.cmp_equal_iff_eq", "C08.pair.bool_f64.eq_implies_same_hash", "C08.pair.bool_f64.partial_cmp_agrees_with_cmp", "C08.pair.bool_f64.cmp_equal_iff_eq_with_nan");
-// @unit C08.pair.i16_i16 props=C08 kind=complete fn=<zvariant::Value.as.PartialEq>::eq,<zvariant::Value.as.Ord>::cmp,<zvariant::Value.as.Hash>::hash timeout=900
+// @unit C08.pair.i16_i16 props=C08 kind=complete fn=<zvariant::Value.as.PartialEq>::eq,<zvariant::Value.as.Ord>::cmp,<zvariant::Value.as.Hash>::hash timeout=1800
 #[cfg(not(verif_skip_c08_pair_i16_x_i16__complete))]
 pair_unit!(c08_pair_i16_x_i16__complete, I16, i16, I16, i16,
     "C08.pair.i16_i16.eq_symmetric", "C08.pair.i16_i16.cmp_antisymmetric", "C08.pair.i16_i16.cmp_equal_iff_eq", "C08.pair.i16_i16.eq_implies_same_hash", "C08.pair.i16_i16.partial_cmp_agrees_with_cmp", "C08.pair.i16_i16.cmp_equal_iff_eq_with_nan");
-// @unit C08.pair.i16_u16 props=C08 kind=complete tier=thorough fn=<zvariant::Value.as.PartialEq>::eq,<zvariant::Value.as.Ord>::cmp,<zvariant::Value.as.Hash>::hash timeout=900
+// @unit C08.pair.i16_u16 props=C08 kind=complete tier=thorough fn=<zvariant::Value.as.PartialEq>::eq,<zvariant::Value.as.Ord>::cmp,<zvariant::Value.as.Hash>::hash timeout=1800
 #[cfg(not(verif_skip_c08_pair_i16_x_u16__complete))]
 pair_unit!(c08_pair_i16_x_u16__complete, I16, i16, U16, u16,
     "C08.pair.i16_u16.eq_symmetric", "C08.pair.i16_u16.cmp_antisymmetric", "C08.pair.i16_u16.cmp_equal_iff_eq", "C08.pair.i16_u16.eq_implies_same_hash", "C08.pair.i16_u16.partial_cmp_agrees_with_cmp", "C08.pair.i16_u16.cmp_equal_iff_eq_with_nan");
-// @unit C08.pair.i16_i32 props=C08 kind=complete tier=thorough fn=<zvariant::Value.as.PartialEq>::eq,<zvariant::Value.as.Ord>::cmp,<zvariant::Value.as.Hash>::hash timeout=900
+// @unit C08.pair.i16_i32 props=C08 kind=complete tier=thorough fn=<zvariant::Value.as.PartialEq>::eq,<zvariant::Value.as.Ord>::cmp,<zvariant::Value.as.Hash>::hash timeout=1800
 #[cfg(not(verif_skip_c08_pair_i16_x_i32__complete))]
 pair_unit!(c08_pair_i16_x_i32__complete, I16, i16, I32, i32,
     "C08.pair.i16_i32.eq_symmetric", "C08.pair.i16_i32.cmp_antisymmetric", "C08.pair.i16_i32.cmp_equal_iff_eq", "C08.pair.i16_i32.eq_implies_same_hash", "C08.pair.i16_i32.partial_cmp_agrees_with_cmp", "C08.pair.i16_i32.cmp_equal_iff_eq_with_nan");
-// @unit C08.pair.i16_u32 props=C08 kind=complete tier=thorough fn=<zvariant::Value.as.PartialEq>::eq,<zvariant::Value.as.Ord>::cmp,<zvariant::Value.as.Hash>::hash timeout=900
+// @unit C08.pair.i16_u32 props=C08 kind=complete tier=thorough fn=<zvariant::Value.as.PartialEq>::eq,<zvariant::Value.as.Ord>::cmp,<zvariant::Value.as.Hash>::hash timeout=1800
 #[cfg(not(verif_skip_c08_pair_i16_x_u32__complete))]
 pair_unit!(c08_pair_i16_x_u32__complete, I16, i16, U32, u32,
     "C08.pair.i16_u32.eq_symmetric", "C08.pair.i16_u32.cmp_antisymmetric", "C08.pair.i16_u32.cmp_equal_iff_eq", "C08.pair.i16_u32.eq_implies_same_hash", "C08.pair.i16_u32.partial_cmp_agrees_with_cmp", "C08.pair.i16_u32.cmp_equal_iff_eq_with_nan");
-// @unit C08.pair.i16_i64 props=C08 kind=complete tier=thorough fn=<zvariant::Value.as.PartialEq>::eq,<zvariant::Value.as.Ord>::cmp,<zvariant::Value.as.Hash>::hash timeout=900
+// @unit C08.pair.i16_i64 props=C08 kind=complete tier=thorough fn=<zvariant::Value.as.PartialEq>::eq,<zvariant::Value.as.Ord>::cmp,<zvariant::Value.as.Hash>::hash timeout=1800
 #[cfg(not(verif_skip_c08_pair_i16_x_i64__complete))]
 pair_unit!(c08_pair_i16_x_i64__complete, I16, i16, I64, i64,
     "C08.pair.i16_i64.eq_symmetric", "C08.pair.i16_i64.cmp_antisymmetric", "C08.pair.i16_i64.cmp_equal_iff_eq", "C08.pair.i16_i64.eq_implies_same_hash", "C08.pair.i16_i64.partial_cmp_agrees_with_cmp", "C08.pair.i16_i64.cmp_equal_iff_eq_with_nan");
-// @unit C08.pair.i16_u64 props=C08 kind=complete tier=thorough fn=<zvariant::Value.as.PartialEq>::eq,<zvariant::Value.as.Ord>::cmp,<zvariant::Value.as.Hash>::hash timeout=900
+// @unit C08.pair.i16_u64 props=C08 kind=complete tier=thorough fn=<zvariant::Value.as.PartialEq>::eq,<zvariant::Value.as.Ord>::cmp,<zvariant::Value.as.Hash>::hash timeout=1800
 #[cfg(not(verif_skip_c08_pair_i16_x_u64__complete))]
 pair_unit!(c08_pair_i16_x_u64__complete, I16, i16, U64, u64,
     "C08.pair.i16_u64.eq_symmetric", "C08.pair.i16_u64.cmp_antisymmetric", "C08.pair.i16_u64.cmp_equal_iff_eq", "C08.pair.i16_u64.eq_implies_same_hash", "C08.pair.i16_u64.partial_cmp_agrees_with_cmp", "C08.pair.i16_u64.cmp_equal_iff_eq_with_nan");
-// @unit C08.pair.i16_f64 props=C08 kind=complete tier=thorough fn=<zvariant::Value.as.PartialEq>::eq,<zvariant::Value.as.Ord>::cmp,<zvariant::Value.as.Hash>::hash timeout=900
+// @unit C08.pair.i16_f64 props=C08 kind=complete tier=thorough fn=<zvariant::Value.as.PartialEq>::eq,<zvariant::Value.as.Ord>::cmp,<zvariant::Value.as.Hash>::hash timeout=1800
 #[cfg(not(verif_skip_c08_pair_i16_x_f64__complete))]
 pair_unit!(c08_pair_i16_x_f64__complete, I16, i16, F64, f64,
     "C08.pair.i16_f64.eq_symmetric", "C08.pair.i16_f64.cmp_antisymmetric", "C08.pair.i16_f64.cmp_equal_iff_eq", "C08.pair.i16_f64.eq_implies_same_hash", "C08.pair.i16_f64.partial_cmp_agrees_with_cmp", "C08.pair.i16_f64.cmp_equal_iff_eq_with_nan");
-// @unit C08.pair.u16_u16 props=C08 kind=complete fn=<zvariant::Value.as.PartialEq>::eq,<zvariant::Value.as.Ord>::cmp,<zvariant::Value.as.Hash>::hash timeout=900
+// @unit C08.pair.u16_u16 props=C08 kind=complete fn=<zvariant::Value.as.PartialEq>::eq,<zvariant::Value.as.Ord>::cmp,<zvariant::Value.as.Hash>::hash timeout=1800
 #[cfg(not(verif_skip_c08_pair_u16_x_u16__complete))]
 pair_unit!(c08_pair_u16_x_u16__complete, U16, u16, U16, u16,
     "C08.pair.u16_u16.eq_symmetric", "C08.pair.u16_u16.cmp_antisymmetric", "C08.pair.u16_u16.cmp_equal_iff_eq", "C08.pair.u16_u16.eq_implies_same_hash", "C08.pair.u16_u16.partial_cmp_agrees_with_cmp", "C08.pair.u16_u16.cmp_equal_iff_eq_with_nan");
-// @unit C08.pair.u16_i32 props=C08 kind=complete tier=thorough fn=<zvariant::Value.as.PartialEq>::eq,<zvariant::Value.as.Ord>::cmp,<zvariant::Value.as.Hash>::hash timeout=900
+// @unit C08.pair.u16_i32 props=C08 kind=complete tier=thorough fn=<zvariant::Value.as.PartialEq>::eq,<zvariant::Value.as.Ord>::cmp,<zvariant::Value.as.Hash>::hash timeout=1800
 #[cfg(not(verif_skip_c08_pair_u16_x_i32__complete))]
 pair_unit!(c08_pair_u16_x_i32__complete, U16, u16, I32, i32,
     "C08.pair.u16_i32.eq_symmetric", "C08.pair.u16_i32.cmp_antisymmetric", "C08.pair.u16_i32.cmp_equal_iff_eq", "C08.pair.u16_i32.eq_implies_same_hash", "C08.pair.u16_i32.partial_cmp_agrees_with_cmp", "C08.pair.u16_i32.cmp_equal_iff_eq_with_nan");
-// @unit C08.pair.u16_u32 props=C08 kind=complete tier=thorough fn=<zvariant::Value.as.PartialEq>::eq,<zvariant::Value.as.Ord>::cmp,<zvariant::Value.as.Hash>::hash timeout=900
+// @unit C08.pair.u16_u32 props=C08 kind=complete tier=thorough fn=<zvariant::Value.as.PartialEq>::eq,<zvariant::Value.as.Ord>::cmp,<zvariant::Value.as.Hash>::hash timeout=1800
 #[cfg(not(verif_skip_c08_pair_u16_x_u32__complete))]
 pair_unit!(c08_pair_u16_x_u32__complete, U16, u16, U32, u32,
     "C08.pair.u16_u32.eq_symmetric", "C08.pair.u16_u32.cmp_antisymmetric", "C08.pair.u16_u32.cmp_equal_iff_eq", "C08.pair.u16_u32.eq_implies_same_hash", "C08.pair.u16_u32.partial_cmp_agrees_with_cmp", "C08.pair.u16_u32.cmp_equal_iff_eq_with_nan");
-// @unit C08.pair.u16_i64 props=C08 kind=complete tier=thorough fn=<zvariant::Value.as.PartialEq>::eq,<zvariant::Value.as.Ord>::cmp,<zvariant::Value.as.Hash>::hash timeout=900
+// @unit C08.pair.u16_i64 props=C08 kind=complete tier=thorough fn=<zvariant::Value.as.PartialEq>::eq,<zvariant::Value.as.Ord>::cmp,<zvariant::Value.as.Hash>::hash timeout=1800
 #[cfg(not(verif_skip_c08_pair_u16_x_i64__complete))]
 pair_unit!(c08_pair_u16_x_i64__complete, U16, u16, I64, i64,
     "C08.pair.u16_i64.eq_symmetric", "C08.pair.u16_i64.cmp_antisymmetric", "C08.pair.u16_i64.cmp_equal_iff_eq", "C08.pair.u16_i64.eq_implies_same_hash", "C08.pair.u16_i64.partial_cmp_agrees_with_cmp", "C08.pair.u16_i64.cmp_equal_iff_eq_with_nan");
-// @unit C08.pair.u16_u64 props=C08 kind=complete tier=thorough fn=<zvariant::Value.as.PartialEq>::eq,<zvariant::Value.as.Ord>::cmp,<zvariant::Value.as.Hash>::hash timeout=900
+// @unit C08.pair.u16_u64 props=C08 kind=complete tier=thorough fn=<zvariant::Value.as.PartialEq>::eq,<zvariant::Value.as.Ord>::cmp,<zvariant::Value.as.Hash>::hash timeout=1800
 #[cfg(not(verif_skip_c08_pair_u16_x_u64__complete))]
 pair_unit!(c08_pair_u16_x_u64__complete, U16, u16, U64, u64,
     "C08.pair.u16_u64.eq_symmetric", "C08.pair.u16_u64.cmp_antisymmetric", "C08.pair.u16_u64.cmp_equal_iff_eq", "C08.pair.u16_u64.eq_implies_same_hash", "C08.pair.u16_u64.partial_cmp_agrees_with_cmp", "C08.pair.u16_u64.cmp_equal_iff_eq_with_nan");
-// @unit C08.pair.u16_f64 props=C08 kind=complete tier=thorough fn=<zvariant::Value.as.PartialEq>::eq,<zvariant::Value.as.Ord>::cmp,<zvariant::Value.as.Hash>::hash timeout=900
+// @unit C08.pair.u16_f64 props=C08 kind=complete tier=thorough fn=<zvariant::Value.as.PartialEq>::eq,<zvariant::Value.as.Ord>::cmp,<zvariant::Value.as.Hash>::hash timeout=1800
 #[cfg(not(verif_skip_c08_pair_u16_x_f64__complete))]
 pair_unit!(c08_pair_u16_x_f64__complete, U16, u16, F64, f64,
     "C08.pair.u16_f64.eq_symmetric", "C08.pair.u16_f64.cmp_antisymmetric", "C08.pair.u16_f64.cmp_equal_iff_eq", "C08.pair.u16_f64.eq_implies_same_hash", "C08.pair.u16_f64.partial_cmp_agrees_with_cmp", "C08.pair.u16_f64.cmp_equal_iff_eq_with_nan");
-// @unit C08.pair.i32_i32 props=C08 kind=complete fn=<zvariant::Value.as.PartialEq>::eq,<zvariant::Value.as.Ord>::cmp,<zvariant::Value.as.Hash>::hash timeout=900
+// @unit C08.pair.i32_i32 props=C08 kind=complete fn=<zvariant::Value.as.PartialEq>::eq,<zvariant::Value.as.Ord>::cmp,<zvariant::Value.as.Hash>::hash timeout=1800
 #[cfg(not(verif_skip_c08_pair_i32_x_i32__complete))]
 pair_unit!(c08_pair_i32_x_i32__complete, I32, i32, I32, i32,
     "C08.pair.i32_i32.eq_symmetric", "C08.pair.i32_i32.cmp_antisymmetric", "C08.pair.i32_i32.cmp_equal_iff_eq", "C08.pair.i32_i32.eq_implies_same_hash", "C08.pair.i32_i32.partial_cmp_agrees_with_cmp", "C08.pair.i32_i32.cmp_equal_iff_eq_with_nan");
-// @unit C08.pair.i32_u32 props=C08 kind=complete fn=<zvariant::Value.as.PartialEq>::eq,<zvariant::Value.as.Ord>::cmp,<zvariant::Value.as.Hash>::hash timeout=900
+// @unit C08.pair.i32_u32 props=C08 kind=complete fn=<zvariant::Value.as.PartialEq>::eq,<zvariant::Value.as.Ord>::cmp,<zvariant::Value.as.Hash>::hash timeout=1800
 #[cfg(not(verif_skip_c08_pair_i32_x_u32__complete))]
 pair_unit!(c08_pair_i32_x_u32__complete, I32, i32, U32, u32,
     "C08.pair.i32_u32.eq_symmetric", "C08.pair.i32_u32.cmp_antisymmetric", "C08.pair.i32_u32.cmp_equal_iff_eq", "C08.pair.i32_u32.eq_implies_same_hash", "C08.pair.i32_u32.partial_cmp_agrees_with_cmp", "C08.pair.i32_u32.cmp_equal_iff_eq_with_nan");
-// @unit C08.pair.i32_i64 props=C08 kind=complete tier=thorough fn=<zvariant::Value.as.PartialEq>::eq,<zvariant::Value.as.Ord>::cmp,<zvariant::Value.as.Hash>::hash timeout=900
+// @unit C08.pair.i32_i64 props=C08 kind=complete tier=thorough fn=<zvariant::Value.as.PartialEq>::eq,<zvariant::Value.as.Ord>::cmp,<zvariant::Value.as.Hash>::hash timeout=1800
 #[cfg(not(verif_skip_c08_pair_i32_x_i64__complete))]
 pair_unit!(c08_pair_i32_x_i64__complete, I32, i32, I64, i64,
     "C08.pair.i32_i64.eq_symmetric", "C08.pair.i32_i64.cmp_antisymmetric", "C08.pair.i32_i64.cmp_equal_iff_eq", "C08.pair.i32_i64.eq_implies_same_hash", "C08.pair.i32_i64.partial_cmp_agrees_with_cmp", "C08.pair.i32_i64.cmp_equal_iff_eq_with_nan");
-// @unit C08.pair.i32_u64 props=C08 kind=complete tier=thorough fn=<zvariant::Value.as.PartialEq>::eq,<zvariant::Value.as.Ord>::cmp,<zvariant::Value.as.Hash>::hash timeout=900
+// @unit C08.pair.i32_u64 props=C08 kind=complete tier=thorough fn=<zvariant::Value.as.PartialEq>::eq,<zvariant::Value.as.Ord>::cmp,<zvariant::Value.as.Hash>::hash timeout=1800
 #[cfg(not(verif_skip_c08_pair_i32_x_u64__complete))]
 pair_unit!(c08_pair_i32_x_u64__complete, I32, i32, U64, u64,
     "C08.pair.i32_u64.eq_symmetric", "C08.pair.i32_u64.cmp_antisymmetric", "C08.pair.i32_u64.cmp_equal_iff_eq", "C08.pair.i32_u64.eq_implies_same_hash", "C08.pair.i32_u64.partial_cmp_agrees_with_cmp", "C08.pair.i32_u64.cmp_equal_iff_eq_with_nan");
-// @unit C08.pair.i32_f64 props=C08 kind=complete tier=thorough fn=<zvariant::Value.as.PartialEq>::eq,<zvariant::Value.as.Ord>::cmp,<zvariant::Value.as.Hash>::hash timeout=900
+// @unit C08.pair.i32_f64 props=C08 kind=complete tier=thorough fn=<zvariant::Value.as.PartialEq>::eq,<zvariant::Value.as.Ord>::cmp,<zvariant::Value.as.Hash>::hash timeout=1800
 #[cfg(not(verif_skip_c08_pair_i32_x_f64__complete))]
 pair_unit!(c08_pair_i32_x_f64__complete, I32, i32, F64, f64,
     "C08.pair.i32_f64.eq_symmetric", "C08.pair.i32_f64.cmp_antisymmetric", "C08.pair.i32_f64.cmp_equal_iff_eq", "C08.pair.i32_f64.eq_implies_same_hash", "C08.pair.i32_f64.partial_cmp_agrees_with_cmp", "C08.pair.i32_f64.cmp_equal_iff_eq_with_nan");
-// @unit C08.pair.u32_u32 props=C08 kind=complete fn=<zvariant::Value.as.PartialEq>::eq,<zvariant::Value.as.Ord>::cmp,<zvariant::Value.as.Hash>::hash timeout=900
+// @unit C08.pair.u32_u32 props=C08 kind=complete fn=<zvariant::Value.as.PartialEq>::eq,<zvariant::Value.as.Ord>::cmp,<zvariant::Value.as.Hash>::hash timeout=1800
 #[cfg(not(verif_skip_c08_pair_u32_x_u32__complete))]
 pair_unit!(c08_pair_u32_x_u32__complete, U32, u32, U32, u32,
     "C08.pair.u32_u32.eq_symmetric", "C08.pair.u32_u32.cmp_antisymmetric", "C08.pair.u32_u32.cmp_equal_iff_eq", "C08.pair.u32_u32.eq_implies_same_hash", "C08.pair.u32_u32.partial_cmp_agrees_with_cmp", "C08.pair.u32_u32.cmp_equal_iff_eq_with_nan");
-// @unit C08.pair.u32_i64 props=C08 kind=complete tier=thorough fn=<zvariant::Value.as.PartialEq>::eq,<zvariant::Value.as.Ord>::cmp,<zvariant::Value.as.Hash>::hash timeout=900
+// @unit C08.pair.u32_i64 props=C08 kind=complete tier=thorough fn=<zvariant::Value.as.PartialEq>::eq,<zvariant::Value.as.Ord>::cmp,<zvariant::Value.as.Hash>::hash timeout=1800
 #[cfg(not(verif_skip_c08_pair_u32_x_i64__complete))]
 pair_unit!(c08_pair_u32_x_i64__complete, U32, u32, I64, i64,
     "C08.pair.u32_i64.eq_symmetric", "C08.pair.u32_i64.cmp_antisymmetric", "C08.pair.u32_i64.cmp_equal_iff_eq", "C08.pair.u32_i64.eq_implies_same_hash", "C08.pair.u32_i64.partial_cmp_agrees_with_cmp", "C08.pair.u32_i64.cmp_equal_iff_eq_with_nan");
-// @unit C08.pair.u32_u64 props=C08 kind=complete tier=thorough fn=<zvariant::Value.as.PartialEq>::eq,<zvariant::Value.as.Ord>::cmp,<zvariant::Value.as.Hash>::hash timeout=900
+// @unit C08.pair.u32_u64 props=C08 kind=complete tier=thorough fn=<zvariant::Value.as.PartialEq>::eq,<zvariant::Value.as.Ord>::cmp,<zvariant::Value.as.Hash>::hash timeout=1800
 #[cfg(not(verif_skip_c08_pair_u32_x_u64__complete))]
 pair_unit!(c08_pair_u32_x_u64__complete, U32, u32, U64, u64,
     "C08.pair.u32_u64.eq_symmetric", "C08.pair.u32_u64.cmp_antisymmetric", "C08.pair.u32_u64.cmp_equal_iff_eq", "C08.pair.u32_u64.eq_implies_same_hash", "C08.pair.u32_u64.partial_cmp_agrees_with_cmp", "C08.pair.u32_u64.cmp_equal_iff_eq_with_nan");
-// @unit C08.pair.u32_f64 props=C08 kind=complete tier=thorough fn=<zvariant::Value.as.PartialEq>::eq,<zvariant::Value.as.Ord>::cmp,<zvariant::Value.as.Hash>::hash timeout=900
+// @unit C08.pair.u32_f64 props=C08 kind=complete tier=thorough fn=<zvariant::Value.as.PartialEq>::eq,<zvariant::Value.as.Ord>::cmp,<zvariant::Value.as.Hash>::hash timeout=1800
 #[cfg(not(verif_skip_c08_pair_u32_x_f64__complete))]
 pair_unit!(c08_pair_u32_x_f64__complete, U32, u32, F64, f64,
     "C08.pair.u32_f64.eq_symmetric", "C08.pair.u32_f64.cmp_antisymmetric", "C08.pair.u32_f64.cmp_equal_iff_eq", "C08.pair.u32_f64.eq_implies_same_hash", "C08.pair.u32_f64.partial_cmp_agrees_with_cmp", "C08.pair.u32_f64.cmp_equal_iff_eq_with_nan");
-// @unit C08.pair.i64_i64 props=C08 kind=complete fn=<zvariant::Value.as.PartialEq>::eq,<zvariant::Value.as.Ord>::cmp,<zvariant::Value.as.Hash>::hash timeout=900
+// @unit C08.pair.i64_i64 props=C08 kind=complete fn=<zvariant::Value.as.PartialEq>::eq,<zvariant::Value.as.Ord>::cmp,<zvariant::Value.as.Hash>::hash timeout=1800
 #[cfg(not(verif_skip_c08_pair_i64_x_i64__complete))]
 pair_unit!(c08_pair_i64_x_i64__complete, I64, i64, I64, i64,
     "C08.pair.i64_i64.eq_symmetric", "C08.pair.i64_i64.cmp_antisymmetric", "C08.pair.i64_i64.cmp_equal_iff_eq", "C08.pair.i64_i64.eq_implies_same_hash", "C08.pair.i64_i64.partial_cmp_agrees_with_cmp", "C08.pair.i64_i64.cmp_equal_iff_eq_with_nan");
-// @unit C08.pair.i64_u64 props=C08 kind=complete tier=thorough fn=<zvariant::Value.as.PartialEq>::eq,<zvariant::Value.as.Ord>::cmp,<zvariant::Value.as.Hash>::hash timeout=900
+// @unit C08.pair.i64_u64 props=C08 kind=complete tier=thorough fn=<zvariant::Value.as.PartialEq>::eq,<zvariant::Value.as.Ord>::cmp,<zvariant::Value.as.Hash>::hash timeout=1800
 #[cfg(not(verif_skip_c08_pair_i64_x_u64__complete))]
 pair_unit!(c08_pair_i64_x_u64__complete, I64, i64, U64, u64,
     "C08.pair.i64_u64.eq_symmetric", "C08.pair.i64_u64.cmp_antisymmetric", "C08.pair.i64_u64.cmp_equal_iff_eq", "C08.pair.i64_u64.eq_implies_same_hash", "C08.pair.i64_u64.partial_cmp_agrees_with_cmp", "C08.pair.i64_u64.cmp_equal_iff_eq_with_nan");
-// @unit C08.pair.i64_f64 props=C08 kind=complete fn=<zvariant::Value.as.PartialEq>::eq,<zvariant::Value.as.Ord>::cmp,<zvariant::Value.as.Hash>::hash timeout=900
+// @unit C08.pair.i64_f64 props=C08 kind=complete fn=<zvariant::Value.as.PartialEq>::eq,<zvariant::Value.as.Ord>::cmp,<zvariant::Value.as.Hash>::hash timeout=1800
 #[cfg(not(verif_skip_c08_pair_i64_x_f64__complete))]
 pair_unit!(c08_pair_i64_x_f64__complete, I64, i64, F64, f64,
     "C08.pair.i64_f64.eq_symmetric", "C08.pair.i64_f64.cmp_antisymmetric", "C08.pair.i64_f64.cmp_equal_iff_eq", "C08.pair.i64_f64.eq_implies_same_hash", "C08.pair.i64_f64.partial_cmp_agrees_with_cmp", "C08.pair.i64_f64.cmp_equal_iff_eq_with_nan");
-// @unit C08.pair.u64_u64 props=C08 kind=complete fn=<zvariant::Value.as.PartialEq>::eq,<zvariant::Value.as.Ord>::cmp,<zvariant::Value.as.Hash>::hash timeout=900
+// @unit C08.pair.u64_u64 props=C08 kind=complete fn=<zvariant::Value.as.PartialEq>::eq,<zvariant::Value.as.Ord>::cmp,<zvariant::Value.as.Hash>::hash timeout=1800
 #[cfg(not(verif_skip_c08_pair_u64_x_u64__complete))]
 pair_unit!(c08_pair_u64_x_u64__complete, U64, u64, U64, u64,
     "C08.pair.u64_u64.eq_symmetric", "C08.pair.u64_u64.cmp_antisymmetric", "C08.pair.u64_u64.cmp_equal_iff_eq", "C08.pair.u64_u64.eq_implies_same_hash", "C08.pair.u64_u64.partial_cmp_agrees_with_cmp", "C08.pair.u64_u64.cmp_equal_iff_eq_with_nan");
-// @unit C08.pair.u64_f64 props=C08 kind=complete fn=<zvariant::Value.as.PartialEq>::eq,<zvariant::Value.as.Ord>::cmp,<zvariant::Value.as.Hash>::hash timeout=900
+// @unit C08.pair.u64_f64 props=C08 kind=complete fn=<zvariant::Value.as.PartialEq>::eq,<zvariant::Value.as.Ord>::cmp,<zvariant::Value.as.Hash>::hash timeout=1800
 #[cfg(not(verif_skip_c08_pair_u64_x_f64__complete))]
 pair_unit!(c08_pair_u64_x_f64__complete, U64, u64, F64, f64,
     "C08.pair.u64_f64.eq_symmetric", "C08.pair.u64_f64.cmp_antisymmetric", "C08.pair.u64_f64.cmp_equal_iff_eq", "C08.pair.u64_f64.eq_implies_same_hash", "C08.pair.u64_f64.partial_cmp_agrees_with_cmp", "C08.pair.u64_f64.cmp_equal_iff_eq_with_nan");
-// @unit C08.pair.f64_f64 props=C08 kind=complete fn=<zvariant::Value.as.PartialEq>::eq,<zvariant::Value.as.Ord>::cmp,<zvariant::Value.as.Hash>::hash timeout=900
+// @unit C08.pair.f64_f64 props=C08 kind=complete fn=<zvariant::Value.as.PartialEq>::eq,<zvariant::Value.as.Ord>::cmp,<zvariant::Value.as.Hash>::hash timeout=1800
 #[cfg(not(verif_skip_c08_pair_f64_x_f64__complete))]
 pair_unit!(c08_pair_f64_x_f64__complete, F64, f64, F64, f64,
     "C08.pair.f64_f64.eq_symmetric", "C08.pair.f64_f64.cmp_antisymmetric", "C08.pair.f64_f64.cmp_equal_iff_eq", "C08.pair.f64_f64.eq_implies_same_hash", "C08.pair.f64_f64.partial_cmp_agrees_with_cmp", "C08.pair.f64_f64.cmp_equal_iff_eq_with_nan");
@@ -353,7 +353,7 @@ struct QuietErr;
 impl core::fmt::Display for QuietErr { fn fmt(&self, _f: &mut core::fmt::Formatter<'_>) -> core::fmt::Result { Ok(()) } }
 impl std::error::Error for QuietErr {}
 impl serde::de::Error for QuietErr { fn custom<T: core::fmt::Display>(msg: T) -> Self { core::mem::forget(msg); QuietErr } } // never drop a zvariant::Error under CBMC (recursive drop glue)
-// @unit C03.value_seed.object_path props=C03 kind=bounded bound=ASCII,N<=4 fn=<zvariant::value::ValueSeed.as.serde::de::Visitor>::visit_borrowed_str timeout=900
+// @unit C03.value_seed.object_path props=C03 kind=bounded bound=ASCII,N<=4 fn=<zvariant::value::ValueSeed.as.serde::de::Visitor>::visit_borrowed_str timeout=1800
 #[cfg(not(verif_skip_c03_value_seed_object_path__n4))]
 #[cfg(kani)]
 #[kani::proof]
